@@ -7,6 +7,7 @@
 #include <amgcl/value_type/eigen.hpp>
 #include <amgcl/backend/builtin.hpp>
 #include <amgcl/backend/eigen.hpp>
+#include <amgcl/solver/detail/givens_rotations.hpp>
 typedef std::complex<double> C;
 void unit_ip() {
     double d = amgcl::math::inner_product(1.0, 2.0);
@@ -34,4 +35,8 @@ void unit_ip() {
     Eigen::Matrix<C, 2, 2> aem = amgcl::math::adjoint(em);
     (void)ad; (void)ac; (void)asm_; (void)asv; (void)arm; (void)aem;
     (void)d; (void)p1; (void)p2;
+    // plane rotations of the GMRES family for complex scalars (C05 rotation-unitary)
+    C gc, gs, gx(1, 2), gy(3, 4);
+    amgcl::solver::detail::generate_plane_rotation(gx, gy, gc, gs);
+    amgcl::solver::detail::apply_plane_rotation(gx, gy, gc, gs);
 }
